@@ -806,6 +806,11 @@ func (t *Tree) Compile(file string, args []string, out io.Writer) (err error) {
 					} else {
 						class := &node{Type: TypeUnorderedAlternate}
 						for d := rune(0); d <= unicode.MaxRune; d++ {
+							if d >= 0xD800 && d <= 0xDFFF {
+								/* surrogates are not runes of any input, and as
+								   case labels they would all read '\ufffd' */
+								continue
+							}
 							if properties[i].s.Has(d) {
 								class.PushBack(&node{Type: TypeCharacter, string: string(d)})
 							}
